@@ -7,7 +7,10 @@ RULE = ("Gen_Simplify: one TLC state per vertex sequence over the 3x3 lattice (a
         "satisfies the property (subsequence with both ends, dropped vertices within eps, remaining triangles > eps, rings >= 4). "
         "Replay: simplify / simplify_idx / simplify_vw / simplify_vw_idx outputs must be members of the set and agree with each "
         "other, eps <= 0 is the identity, MultiLineString / Polygon / MultiPolygon forms, rings closed and >= 4 coordinates, "
-        "simplify_vw_preserve structural postconditions. distinct_nontrivial = cases where something is removed.")
+        "simplify_vw_preserve structural postconditions. Long inputs: 6 000 (60 000) recorded calls of simplify / simplify_idx / simplify_vw / "
+        "simplify_vw_idx / Polygon::simplify / simplify_vw_preserve on seeded random lattice walks of 0 - 80 vertices (random walk, nearly "
+        "monotone with collinear runs, wild, flat with spikes; open and closed; eps from -1/2 to 100) are judged by Trace_Simplify.tla, "
+        "which evaluates the property's postconditions exactly on what was returned. distinct_nontrivial = cases where something is removed.")
 ASSUME = ["vertex sequences of <= 5 (quick: sampled at 5) / 6 vertices on the 3x3 lattice; eps in {1/4, 1/2, 1, 3/2, 2, 100}",
           "simplify_vw_preserve is only held to its structural postconditions (its intersection test may keep extra vertices)"]
 
@@ -19,8 +22,28 @@ def check(tier, seed, t0):
     else:
         runs = [dict(name="n5", module="Gen_Simplify", constants=dict(K=2, MaxN=5, Stride=1, Offset=0), invariants=["PostOK"], timeout=3000),
                 dict(name="n6", module="Gen_Simplify", constants=dict(K=2, MaxN=6, Stride=9, Offset=seed % 9), invariants=["PostOK"], timeout=3000)]
+    # long inputs (impl -> spec): recorded calls on random lattice walks of 0 - 80 vertices judged by Trace_Simplify.tla
+    import json, os
+    trace = os.path.join(vf.WORK, "C09_trace.ndjson")
+    vf.build_harness()
+    nev = 6000 if tier == "quick" else 60000
+    vf.run_harness(["record", "c09", trace, nev, "--seed", seed])
+    results, rejects, n = vf.validate_events("C09_validate", "Trace_Simplify", trace)
+    lens = {}
+    with open(trace) as f:
+        for line in f:
+            k = min(len(json.loads(line)["cs"]) // 10, 8)
+            lens[k] = lens.get(k, 0) + 1
+    os.remove(trace)
+    if n < nev or lens.get(3, 0) + lens.get(4, 0) + lens.get(5, 0) + lens.get(6, 0) + lens.get(7, 0) < nev // 20:
+        raise vf.ToolError("recorded simplify trace is vacuous: %s" % lens)
+    extra = [{"kind": "mismatch", "prop": "C09", "sub": "trace:" + why, "case": ev,
+              "detail": {"what": "recorded call violates a postcondition of Trace_Simplify: " + why}} for ev, why in rejects]
     vf.simple_check("C09", tier, seed, t0, runs, RULE, ASSUME,
-                    nontrivial=lambda c: any(len(r) < len(c["cs"]) for r in c["rdp"]) or any(len(r) < len(c["cs"]) for r in c["vw"]))
+                    nontrivial=lambda c: any(len(r) < len(c["cs"]) for r in c["rdp"]) or any(len(r) < len(c["cs"]) for r in c["vw"]),
+                    extra_mismatches=extra,
+                    extra_cov={"recorded_calls_validated": n, "recorded_calls_rejected": len(rejects), "recorded_input_length_histogram_by_tens": lens,
+                               "trace_validation_states": sum(r["distinct"] for r in results)})
 
 
 def replay(path, seed, t0):
